@@ -166,6 +166,8 @@ def r10_7(ctx):
     n = 0
     for pc in nfq.feasible(pcs):
         ret = str(pc["ret"])
+        if "panic!" in nfq.names(pc):
+            continue  # `valid_up_to.checked_sub(initial).unwrap()`: the subtraction would underflow - no answer is given on that path
         m = re.fullmatch(r"\((.*),(Valid|MalformedUtf8Buffer|NotEnoughInput)\)", ret)
         ls = [str(args[0]) for a, args in pc["actions"] if a == "assign self.buffer_len" and args]
         if m is None or len(ls) != 1:
